@@ -261,7 +261,7 @@ def site_info(case) -> dict:
                     point = G._sim_module(case, {**mod, "body": mod["body"][:idx]}, sim, paths, pkgs)["ns"]
                     local_ns = None
                     for site in st_["sites"]:
-                        if site["what"] == "strcall":
+                        if site["what"] in ("strcall", "literal"):
                             out.setdefault(st_["name"], {})[site["what"]] = {"label": "agree", "justified": []}
                             continue
                         if site["what"].startswith("init"):
@@ -388,7 +388,9 @@ def cases(draw, avoid: frozenset = frozenset(), on_excluded=None, max_mods: int 
             self_names=True,
             # a module may bind the name `annotations` by an ordinary import: that is not `from __future__ import
             # annotations`, its string annotations are still parsed and resolved
-            extra_names=("annotations",),
+            # ... and `$TOP` (the top-level package's own name): `from .m import x as <top>` followed by a plain
+            # `import <top>.m2` re-binds the name to the package
+            extra_names=("annotations", "$TOP"),
             deco_defs=True,
         )
     )
@@ -411,6 +413,11 @@ def cases(draw, avoid: frozenset = frozenset(), on_excluded=None, max_mods: int 
             if base_cands and draw(st.integers(0, 2)) > 0:
                 cls["bases"] = [draw(st.sampled_from(base_cands))]
             body.insert(at, cls)
+        # an aliased import of typing.Literal under a fresh name (first statement of the module): strings inside
+        # `Lit<i>[...]` are literal values, not forward references
+        lit_name = f"Lit{i}" if draw(st.integers(0, 2)) == 0 else None
+        if lit_name:
+            body.insert(0, {"t": "raw", "text": f"from typing import Literal as {lit_name}"})
         final = G._sim_module(case, mod, sim, paths, pkgs)
         tolerated = G.tolerated_names(case, {**sim, mod["path"]: final}, mod["path"])
         counter = [0]
@@ -423,7 +430,10 @@ def cases(draw, avoid: frozenset = frozenset(), on_excluded=None, max_mods: int 
                 pos = draw(st.integers(0, len(scope_body)))
                 idx = pos if not chain else top_index
                 point = G._sim_module(case, {**mod, "body": body[:idx]}, sim, paths, pkgs)["ns"]
-                what = draw(st.sampled_from(("ann", "val", "str", "func", "base", "deco", "ann", "str", "strcall")))
+                what = draw(st.sampled_from(("ann", "val", "str", "func", "base", "deco", "ann", "str", "strcall")
+                                            + (("literal", "literal") if lit_name else ())))
+                if what == "literal" and not chain:
+                    pos = max(pos, 1)  # after the import of Literal
                 counter[0] += 1
                 rid = f"r{i}_{counter[0]}"
 
@@ -480,6 +490,16 @@ def cases(draw, avoid: frozenset = frozenset(), on_excluded=None, max_mods: int 
                     pool = next(groups[g] for g in order if g in groups)
                     if selfnamed and draw(st.integers(0, 2)) == 0:
                         pool = selfnamed
+                    # the top-level package's name when this module also binds it by `from ... import x as <top>` /
+                    # `import ... as <top>` (re-bound by a plain `import <top>.m`)
+                    if any(
+                        (b_["t"] == "from" and b_["names"] != "*" and any(a_ == "$TOP" for _, a_ in b_["names"]))
+                        or (b_["t"] == "import" and b_.get("as") == "$TOP")
+                        for b_ in body
+                    ):
+                        tops = [c for c in cands if c[0] == "$TOP"]
+                        if tops and draw(st.booleans()):
+                            pool = tops
                     # names that a base class of an enclosing class defines and the class body itself does not
                     inh = [c for c in cands if c[0] in inherited and not (chain and last_binding(chain[-1]["body"], c[0]))]
                     if inh and draw(st.integers(0, 2)) == 0:
@@ -538,7 +558,8 @@ def cases(draw, avoid: frozenset = frozenset(), on_excluded=None, max_mods: int 
                         feats.append("inherited-name")
                     if n in own_names and py is not None and py[0] == "module":
                         feats.append("module-own-name" if n == G.base_name(mod["path"]) else "parent-package-name")
-                    if n == "$TOP":
+                    if n == "$TOP" and py is not None and py[0] == "module" and info.get("how") == "import" \
+                            and not (info.get("stmt") or {}).get("as"):
                         # `<top>.a.b...`: go to the module imported by the `import <top>.a.b` statement that bound it,
                         # provided it lies in another branch of the tree (see _extend_chain)
                         stmt = info.get("stmt")
@@ -565,7 +586,18 @@ def cases(draw, avoid: frozenset = frozenset(), on_excluded=None, max_mods: int 
                     return text, lab, feats
 
                 stmt = None
-                if what == "strcall":
+                if what == "literal":
+                    scope_names = set(final["ns"])
+                    for c in chain:
+                        scope_names |= set(_class_attrs(c))
+                    scope_names = sorted(x for x in scope_names if x not in ("$TOP", "__all__") and not is_site_name(x)) or ["zz"]
+                    vals = draw(st.lists(st.sampled_from(scope_names), min_size=1, max_size=2))
+                    if draw(st.integers(0, 3)) == 3:
+                        vals[-1] = vals[-1] + "." + draw(st.sampled_from(scope_names))
+                    text = f"{lit_name}[{', '.join(repr(v) for v in vals)}]"
+                    stmt = {"t": "val", "name": rid, "ann": text, "value": "0",
+                            "sites": [{"what": "literal", "expr": text, "label": "agree", "features": ["literal-strings"]}]}
+                elif what == "strcall":
                     # an attribute chain hanging off a call or subscript result, in a string annotation (never evaluated):
                     # its segments have no static binding, whatever the enclosing scopes bind under those names
                     scope_names = set(final["ns"]) | inherited_attrs(chain, final["ns"])
